@@ -152,6 +152,10 @@ int libxmp_virt_on(struct context_data *ctx, int num)
 	free(p->virt.voice_array);
 	p->virt.voice_array = NULL;
       err:
+	/* no table exists: do not keep counts that describe one */
+	p->virt.virt_used = p->virt.maxvoc = 0;
+	p->virt.virt_channels = 0;
+	p->virt.num_tracks = 0;
 	return -1;
 }
 
